@@ -35,6 +35,9 @@ def run_check(prop, patch, k):
 
 def one(sid):
     d = os.path.join(V, "seeded", sid)
+    mp0 = os.path.join(d, "meta.json")
+    if os.path.exists(mp0) and json.load(open(mp0)).get("obsolete"):
+        return sid, ["(superseded)"], "obsolete: " + json.load(open(mp0))["obsolete"][:80]
     prop = sid.split("-")[0]
     patch = os.path.join(d, "patch.diff")
     res = {"own": run_check(prop, patch, sid)}
@@ -83,9 +86,14 @@ def write_results():
         if os.path.exists(notes):
             txt = re.sub(r"\s+", " ", open(notes).read())
             first = txt[:160]
-        rows.append("| %s | %s | %s | %s |" % (sid, "first round" if "-m" in sid else "second round",
-                                             ("**caught** by " + ", ".join(f.get("detected_by"))) if f.get("detected_by") else ("MISSED" if f else "not run"),
-                                             first.replace("|", "/")))
+        rnd = {"m": "1", "r2m": "2", "r3m": "3", "r4m": "4"}.get(re.sub(r"[0-9]+$", "", sid.split("-", 1)[1]), "?")
+        if m.get("obsolete"):
+            res = "superseded: " + m["obsolete"]
+        elif m.get("out_of_domain"):
+            res = ("not detected, by decision: " + m["out_of_domain"]) if not f.get("detected_by") else ("**caught** by " + ", ".join(f.get("detected_by")))
+        else:
+            res = ("**caught** by " + ", ".join(f.get("detected_by"))) if f.get("detected_by") else ("MISSED" if f else "not run")
+        rows.append("| %s | %s | %s | %s |" % (sid, rnd, res.replace("|", "/"), first.replace("|", "/")))
     with open(os.path.join(V, "seeded", "RESULTS.md"), "w") as fh:
         fh.write("# Seeded changes — final detection status (quick tier, scratch worktree of /repo with the patch applied)\n\n"
                  "Produced by /verif/seeded_matrix.py; each row's details are in seeded/<id>/meta.json (`final`).\n\n"
